@@ -8,7 +8,9 @@
   `a` occurs strictly before a `b`.
 -/
 import Aqv.Lemmas.FeedInvC
+import Aqv.Lemmas.FeedInvD
 import Aqv.Lemmas.FeedInvE
+import Aqv.Lemmas.FeedInvF
 import Aqv.Lemmas.FeedTrace
 namespace Aqv.Props.C19
 open Aqv.Feed
@@ -107,5 +109,192 @@ theorem common_order {s : St} (h : Reach s) (c₁ c₂ : Chan) (g₁ g₂ : Sid)
 theorem no_delivery_after_unsubscribe {s : St} (h : Reach s) (c : Chan) (g : Sid) :
     ¬ Before s.tr (.unsubRet c) (.place c g) :=
   (invE_reach h).t_late c g
+
+
+/-- a value is only ever placed into a channel whose Subscribe has returned, and only between the call and the return of
+    the Send that carries it (nothing is delivered "from the past" or to a channel that is not subscribed). -/
+theorem placement_only_to_subscribers_during_send {s : St} (h : Reach s) (c : Chan) (g : Sid)
+    (hp : Ev.place c g ∈ s.tr) :
+    Before s.tr (.subRet c) (.place c g) ∧ Before s.tr (.sendCall g) (.place c g) ∧
+    ∀ n, ¬ Before s.tr (.sendRet g n) (.place c g) :=
+  ⟨(invF_reach h).p_sub c g hp, (invF_reach h).p_call c g hp, fun n => (invF_reach h).p_ret c g n⟩
+
+/-- at quiescence (nobody holds the token) the feed's two lists together contain exactly the live subscriptions —
+    `Subscribe` returned and `Unsubscribe` not called — each once (compared with the real `f.sendCases`/`f.inbox` by the
+    harness after every round). -/
+theorem quiescent_membership {s : St} (h : Reach s) (hq : s.tokenFree = true) (c : Chan)
+    (hc : s.rpc c = .idle ∨ s.rpc c = .done) :
+    (s.inbox ++ s.sendCases).Nodup ∧
+    ((c ∈ s.inbox ∨ c ∈ s.sendCases) ↔ (Ev.subRet c ∈ s.tr ∧ Ev.unsubCall c ∉ s.tr)) := by
+  have ha := invA_reach h
+  have he := invE_reach h
+  refine ⟨ha.nodup, ?_⟩
+  rw [he.t_sub, he.t_ucall]
+  have hn := ha.tok.mp hq
+  have h5 := ha.sub_mem c; have h7 := ha.loc_idle c; have h10 := ha.loc_done c
+  rw [hn] at h10
+  grind
+
+/-! ### Progress (deadlock freedom).
+
+Full statement wanted (DESIGN §4): under weak fairness of the scheduler and of receivers every `Send` and every
+`Unsubscribe` returns.  What is proved here, for every reachable state:
+* `token_never_lost`      — if the token is not free, a definite goroutine holds it;
+* `holder_can_step`       — that goroutine always has an enabled step of its own, unless it is a Send blocked in Select;
+* `select_waits_only_for_receivers` — a Send blocked in Select has at least one active case, and as soon as the receiver
+                            of ANY active case arrives at its `<-ch` the Send can place the value there; a pending
+                            `remove` at its select can always rendezvous with it;
+* `waiters_enabled`       — when the token is free every Send blocked in `<-sendLock` and every `remove` at its select
+                            can take it;
+* `send_measure_decreases`— every step of the token-holding Send after the inbox merge strictly decreases a
+                            lexicographic measure, so a Send performs only finitely many steps between receiver arrivals.
+Not formalised (hence `_partial`): the temporal argument that turns these into "always eventually returns" under weak
+fairness (it needs fair infinite runs); Go's scheduler and `reflect.Select` fairness are assumptions. -/
+
+theorem token_never_lost {s : St} (h : Reach s) (hq : s.tokenFree = false) :
+    (∃ g, (s.spc g).held = true) ∨ (∃ c, (s.rpc c).held = true) := by
+  have ha := invA_reach h
+  have h1 := ha.tok; have h2 := ha.hs; have h3 := ha.hr
+  cases hh : s.holder with
+  | none => simp [hh] at h1; simp [h1] at hq
+  | sender g => exact Or.inl ⟨g, (h2 g).mpr hh⟩
+  | remover c => exact Or.inr ⟨c, (h3 c).mpr hh⟩
+
+theorem holder_can_step {s : St} (h : Reach s) :
+    (∀ g, s.spc g = .locked → (step s (.merge g)).isSome) ∧
+    (∀ g i, s.spc g = .sweep i → (step s (.tryOk g)).isSome ∨ (step s (.tryFail g)).isSome ∨ (step s (.sweepEnd g)).isSome) ∧
+    (∀ g c, s.spc g = .removing c → ∃ s', step s (.doRemove g) = some s' ∧ s'.spc g = .sweep 0) ∧
+    (∀ c, s.rpc c = .start → (step s (.rmInbox c)).isSome) ∧
+    (∀ c, s.rpc c = .token → ∃ s', step s (.rmDelete c) = some s' ∧ s'.rpc c = .deleted) ∧
+    (∀ c, s.rpc c = .deleted → (step s (.rmRelease c)).isSome) := by
+  have ha := invA_reach h
+  refine ⟨?_, ?_, ?_, ?_, ?_, ?_⟩
+  · intro g hg; simp [step, hg]
+  · intro g i hg
+    simp only [step, hg]
+    by_cases h1 : i < s.active
+    · cases hcp : canPlace s (s.sendCases.getD i 0) <;> simp [h1]
+    · right; right
+      have : s.active ≤ i := by omega
+      simp only [this, if_true]
+      split <;> simp
+  · intro g c hg
+    have hc := (ha.removing g c hg).1
+    have hlt := List.idxOf_lt_length_iff.mpr hc
+    simp [step, hg, hlt]
+  · intro c hc; simp only [step, hc, if_true]; split <;> simp
+  · intro c hc
+    have hm := ha.loc_sel c (Or.inr hc)
+    have hlt := List.idxOf_lt_length_iff.mpr hm
+    simp [step, hc, hlt]
+  · intro c hc; simp [step, hc]
+
+theorem select_waits_only_for_receivers {s : St} (h : Reach s) (g : Sid) (hg : s.spc g = .sel) :
+    0 < s.active ∧
+    (∀ i, i < s.active → ∀ s₁, step s (.recvBegin (s.sendCases.getD i 0)) = some s₁ → (step s₁ (.selPlace g i)).isSome) ∧
+    (∀ c, s.rpc c = .sel → (step s (.selRecv g c)).isSome) := by
+  have hd := invD_reach h
+  refine ⟨hd.sel_pos g hg, ?_, ?_⟩
+  · intro i hi s₁ h1
+    simp only [step, Option.some.injEq] at h1
+    subst h1
+    have ho := hd.occ (s.sendCases.getD i 0)
+    simp only [List.getD_eq_getElem?_getD] at ho
+    simp [step, hg, hi, canPlace]
+    omega
+  · intro c hc; simp [step, hg, hc]
+
+theorem waiters_enabled {s : St} (hq : s.tokenFree = true) :
+    (∀ g, s.spc g = .start → (step s (.acquire g)).isSome) ∧ (∀ c, s.rpc c = .sel → (step s (.rmToken c)).isSome) := by
+  constructor
+  · intro g hg; simp [step, hg, hq]
+  · intro c hc; simp [step, hc, hq]
+
+/-- work left for the token-holding Send g after the merge: (cases still in play + subscriptions that can still be
+    removed under it, position inside the current sweep/select round) -/
+def sendMeasure (s : St) (g : Sid) : Nat × Nat :=
+  (s.sendCases.length + s.active,
+   match s.spc g with
+   | .sweep i => 2 + (s.active - i)
+   | .sel => 1
+   | _ => 0)
+
+theorem send_measure_decreases {s s' : St} (g : Sid) (a : Act)
+    (ha : a = .tryOk g ∨ a = .tryFail g ∨ a = .sweepEnd g ∨ (∃ i, a = .selPlace g i) ∨ (∃ c, a = .selRecv g c) ∨ a = .doRemove g)
+    (hs : step s a = some s') (hm : (s'.spc g).merged = true) :
+    Prod.Lex (· < ·) (· < ·) (sendMeasure s' g) (sendMeasure s g) := by
+  rcases ha with rfl | rfl | rfl | ⟨i, rfl⟩ | ⟨c, rfl⟩ | rfl
+  all_goals simp only [step, place] at hs
+  all_goals (repeat' split at hs) <;> (try cases hs)
+  all_goals simp only [sendMeasure, upd_apply, if_true, swapAt_length, SPc.merged] at hm ⊢
+  all_goals first
+    | (apply Prod.Lex.left; grind)
+    | (apply Prod.Lex.right'; all_goals grind)
+
+/-- PROGRESS, partial form (see the section comment for what is and is not covered). -/
+theorem progress_partial {s : St} (h : Reach s) :
+    (s.tokenFree = false → (∃ g, (s.spc g).held = true) ∨ (∃ c, (s.rpc c).held = true)) ∧
+    (∀ g, s.spc g = .sel → 0 < s.active ∧
+      ∀ i, i < s.active → ∀ s₁, step s (.recvBegin (s.sendCases.getD i 0)) = some s₁ → (step s₁ (.selPlace g i)).isSome) ∧
+    (s.tokenFree = true → (∀ g, s.spc g = .start → (step s (.acquire g)).isSome) ∧
+      (∀ c, s.rpc c = .sel → (step s (.rmToken c)).isSome)) :=
+  ⟨token_never_lost h, fun g hg => ⟨(select_waits_only_for_receivers h g hg).1, (select_waits_only_for_receivers h g hg).2.1⟩,
+   fun hq => waiters_enabled hq⟩
+
+
+/-! ### Non-vacuity: a concrete interleaving in which an Unsubscribe lands while the Send is blocked in Select on that very
+subscriber; every hypothesis used above is satisfied on it. -/
+
+def demo : List Act :=
+  [.subscribe 1 1, .subscribe 2 0, .sendCall 7, .acquire 7, .merge 7,
+   .tryOk 7,                    -- channel 1 (buffered) takes the value; deactivate swaps: sendCases = [2, 1], active = 1
+   .tryFail 7,                  -- channel 2 is unbuffered and nobody receives
+   .sweepEnd 7,                 -- Send 7 enters Select, blocked on channel 2
+   .unsubCall 2, .rmInbox 2,    -- Unsubscribe(2): inbox miss, remove waits at its select
+   .selRecv 7 2,                -- rendezvous on removeSub: Unsubscribe(2) returns
+   .doRemove 7,                 -- find = 0 < len(cases): delete and shrink cases
+   .sweepEnd 7,                 -- nothing left to deliver: Send 7 returns 1
+   .subscribe 3 0, .sendCall 8, .acquire 8, .merge 8,
+   .tryFail 8, .tryFail 8,      -- channel 1 is full (still holds 7), channel 3 is unbuffered
+   .sweepEnd 8,                 -- Send 8 blocked in Select on both
+   .recvBegin 1, .recvTake 1,   -- the receiver of channel 1 takes 7
+   .selPlace 8 0,               -- Select picks channel 1
+   .tryFail 8, .sweepEnd 8, .recvBegin 3, .selPlace 8 0, .sweepEnd 8, .recvTake 3]
+
+def demoState : St := (run init demo).getD init
+
+theorem demo_reach : Reach demoState := by
+  have h : run init demo = some demoState := by unfold demoState; rfl
+  exact reach_run Reach.init h
+
+theorem demo_tr : demoState.tr =
+    [.subRet 1, .subRet 2, .sendCall 7, .place 1 7, .unsubCall 2, .unsubRet 2, .sendRet 7 1,
+     .subRet 3, .sendCall 8, .recv 1 7, .place 1 8, .place 3 8, .sendRet 8 2, .recv 3 8] := by rfl
+
+instance (tr : List Ev) (a b : Ev) : Decidable (Before tr a b) := inferInstanceAs (Decidable (List.Sublist [a, b] tr))
+
+-- hypotheses of `exactly_once` (and of `nsent_correct`) hold for Send 7 / channel 1 and for Send 8 / channels 1 and 3
+example : Ev.sendRet 7 1 ∈ demoState.tr ∧ Before demoState.tr (.subRet 1) (.sendCall 7) ∧
+    ¬ Before demoState.tr (.unsubCall 1) (.sendRet 7 1) := by rw [demo_tr]; decide
+example : Ev.sendRet 8 2 ∈ demoState.tr ∧ Before demoState.tr (.subRet 3) (.sendCall 8) ∧
+    ¬ Before demoState.tr (.unsubCall 3) (.sendRet 8 2) := by rw [demo_tr]; decide
+-- channel 2 was unsubscribed during Send 7 (no obligation, and indeed nothing was placed)
+example : Before demoState.tr (.unsubCall 2) (.sendRet 7 1) ∧ demoState.tr.count (.place 2 7) = 0 := by rw [demo_tr]; decide
+-- the conclusion of `exactly_once` on the instance
+example : demoState.tr.count (.place 1 7) = 1 := exactly_once demo_reach 7 1 1 (by rw [demo_tr]; decide) (by rw [demo_tr]; decide) (by rw [demo_tr]; decide)
+-- hypothesis of `cases_is_active_prefix`: a state in the middle of the delivery loop with a non-trivial prefix
+example : ∃ s, Reach s ∧ (s.spc 7).merged = true ∧ s.sendCases = [2, 1] ∧ s.active = 1 ∧ activeCases s = [2] :=
+  ⟨(run init (demo.take 8)).getD init, reach_run Reach.init (by rfl : run init (demo.take 8) = some _), by decide, by rfl, by rfl, by rfl⟩
+-- hypothesis of `common_order`/`no_delivery_after_unsubscribe`: both kinds of events occur
+example : Before demoState.tr (.place 1 7) (.place 1 8) ∧ Before demoState.tr (.unsubRet 2) (.place 3 8) := by rw [demo_tr]; decide
+-- hypothesis of `placement_only_to_subscribers_during_send`
+example : Ev.place 3 8 ∈ demoState.tr := by rw [demo_tr]; decide
+-- hypothesis of `quiescent_membership` and of `select_waits_only_for_receivers`
+example : demoState.tokenFree = true ∧ demoState.rpc 2 = .done ∧ demoState.rpc 1 = .idle := by decide
+example : ∃ s, Reach s ∧ s.spc 7 = .sel ∧ s.active = 1 :=
+  ⟨(run init (demo.take 8)).getD init, reach_run Reach.init (by rfl : run init (demo.take 8) = some _), by decide, by rfl⟩
+-- hypothesis of `send_measure_decreases`: the measure on the way
+example : sendMeasure ((run init (demo.take 6)).getD init) 7 = (3, 3) ∧ sendMeasure ((run init (demo.take 7)).getD init) 7 = (3, 2)
+    ∧ sendMeasure ((run init (demo.take 8)).getD init) 7 = (3, 1) ∧ sendMeasure ((run init (demo.take 12)).getD init) 7 = (1, 2) := by decide
 
 end Aqv.Props.C19
